@@ -177,6 +177,62 @@ func (c *Chain) onEpochBoundary(ended common.Epoch) {
 	if penalised > 0 {
 		c.Stats.Inc("epochs_with_slashing_penalties")
 		c.Stats.Add("slashing_penalties_applied", penalised)
+		// own arithmetic: was the correlation penalty of this transition in the band where min(sum*multiplier, total) clamps
+		// (sum*multiplier > total > sum), with a penalised validator keeping some balance?
+		func() {
+			defer func() { recover() }()
+			sl, err := st.Slashings()
+			if err != nil || cur != ended+1 {
+				return
+			}
+			var sum, total common.Gwei
+			for e := common.Epoch(0); e < sp.EPOCHS_PER_SLASHINGS_VECTOR; e++ {
+				if e == cur%sp.EPOCHS_PER_SLASHINGS_VECTOR {
+					continue // reset by this very transition (after the penalties)
+				}
+				v, err := sl.GetSlashingsValue(e)
+				if err != nil {
+					return
+				}
+				sum += v
+			}
+			for i := range flats {
+				if f := &flats[i]; f.ActivationEpoch <= ended && ended < f.ExitEpoch {
+					eff := f.EffectiveBalance
+					if i < len(c.prevEff) {
+						eff = c.prevEff[i] // as it was when the penalties were computed
+					}
+					total += eff
+				}
+			}
+			mult := common.Gwei(sp.PROPORTIONAL_SLASHING_MULTIPLIER)
+			switch fk := StateFork(st); {
+			case fk >= Bellatrix:
+				mult = common.Gwei(sp.PROPORTIONAL_SLASHING_MULTIPLIER_BELLATRIX)
+			case fk >= Altair:
+				mult = common.Gwei(sp.PROPORTIONAL_SLASHING_MULTIPLIER_ALTAIR)
+			}
+			if total > 0 {
+				c.Stats.Max("max_slashings_sum_permille_of_total_at_penalty_epoch", int(sum*1000/total))
+			}
+			if !(sum*mult > total && total > sum) {
+				return
+			}
+			c.Stats.Inc("slashing_penalty_epochs_in_clamp_band")
+			bals, err := st.Balances()
+			if err != nil {
+				return
+			}
+			for i := range flats {
+				if f := &flats[i]; f.Slashed && ended+sp.EPOCHS_PER_SLASHINGS_VECTOR/2 == f.WithdrawableEpoch {
+					if b, err := bals.GetBalance(common.ValidatorIndex(i)); err == nil && b > 0 {
+						c.Stats.Inc("slashing_penalty_in_clamp_band")
+						c.Stats.Inc("slashing_penalty_in_clamp_band." + StateFork(st).String())
+						return
+					}
+				}
+			}
+		}()
 	}
 	if q := sp.ComputeActivationExitEpoch(cur); maxExit >= q {
 		c.Stats.Max("max_exit_queue_span", int(maxExit-q)+1)
